@@ -175,6 +175,7 @@ type Process struct {
 	eventConsumersLock sync.RWMutex
 	eventConsumers     []event.IConsumer
 	subTracer          tracing.ITracer
+	monitorOnce        sync.Once
 }
 
 func (p *Process) Id() id.Id { return p.id }
@@ -602,11 +603,13 @@ func (p *Process) StartWith(ctx context.Context, element schema.FlowNodeInterfac
 	}
 	switch eventNode := flowNode.(type) {
 	case *startEvent:
+		// StartAll cease flow monitor: one per instance, subscribed before any
+		// start event can emit its first trace (it waits for all of them)
+		p.monitorOnce.Do(func() {
+			sender := p.subTracer.RegisterSender()
+			go p.ceaseFlowMonitor(p.subTracer)(ctx, sender)
+		})
 		eventNode.Trigger(ctx)
-
-		// StartAll cease flow monitor
-		sender := p.subTracer.RegisterSender()
-		go p.ceaseFlowMonitor(p.subTracer)(ctx, sender)
 		p.tracer.Send(InstantiationTrace{InstanceId: p.id})
 
 	case *throwEvent:
